@@ -5,6 +5,7 @@ package interp
 
 import (
 	"go/token"
+	"go/types"
 
 	"golang.org/x/tools/go/ssa"
 )
@@ -198,4 +199,69 @@ func mergeValues(pc *pathCtx, cond string, a, b value) (value, bool) {
 	}
 	r.t = pc.def(r.sort(), "(ite "+cond+" "+ta+" "+tb+")")
 	return r, true
+}
+
+// callAsUF replaces a float-valued pure function by an uninterpreted function of all scalar
+// leaves of its arguments (floats and integers). Used to prove structural properties for every
+// interpretation of a numeric kernel.
+func callAsUF(i *interpreter, fn *ssa.Function, args []value) (value, bool) {
+	pc := i.pc
+	var leaves []string
+	anySym := false
+	var walk func(v value) bool
+	walk = func(v value) bool {
+		switch x := v.(type) {
+		case sym:
+			if x.k != skReal {
+				return false
+			}
+			anySym = true
+			leaves = append(leaves, x.t)
+		case float64:
+			if _, nf := nonFinite(x); nf {
+				return false
+			}
+			leaves = append(leaves, realLit(x))
+		case int:
+			leaves = append(leaves, realLit(float64(x)))
+		case array:
+			for _, e := range x {
+				if !walk(e) {
+					return false
+				}
+			}
+		case structure:
+			for _, e := range x {
+				if !walk(e) {
+					return false
+				}
+			}
+		case []value:
+			for _, e := range x {
+				if !walk(e) {
+					return false
+				}
+			}
+		default:
+			return false
+		}
+		return true
+	}
+	for _, a := range args {
+		if !walk(a) {
+			return nil, false
+		}
+	}
+	if !anySym {
+		return nil, false
+	}
+	name := "uf_" + smtName(fn.Name())
+	pc.declareUF(name, len(leaves))
+	pc.stats.StubsHit["uninterpreted:"+fn.String()]++
+	t := "(" + name
+	for _, l := range leaves {
+		t += " " + l
+	}
+	t += ")"
+	return sym{k: skReal, bk: types.Float64, t: pc.def("Real", t)}, true
 }
